@@ -33,7 +33,8 @@ RS2LEAN_SPECS = [('words.json', 'WordsSrcGen.lean', 'SrcWords'), ('rdh.json', 'R
                  ('payload.json', 'PayloadSrcGen.lean', 'SrcPayload'),
                  ('stateful.json', 'StateSrcGen.lean', 'SrcState'),
                  ('trigstats.json', 'TrigSrcGen.lean', 'SrcTrig'),
-                 ('lanechecks.json', 'LaneSrcGen.lean', 'SrcLane')]
+                 ('lanechecks.json', 'LaneSrcGen.lean', 'SrcLane'),
+                 ('alpidestats.json', 'AlpStatsSrcGen.lean', 'SrcAlpStats')]
 
 os.makedirs(CACHE, exist_ok=True)
 
